@@ -53,7 +53,12 @@ func c29(r *engine.Run) {
 					r.Failf("NewPageIndex:unexpected-error", cs{size, uint64(n), p}, "NewPageIndex(%d,%d): %v", size, p, err)
 					continue
 				}
-				seqs, total, err := visor.VerifPaginate(n, pi)
+				var seqs []uint64
+				var total uint64
+				if pan, msg := engine.Catch(func() { seqs, total, err = visor.VerifPaginate(n, pi) }); pan {
+					r.Failf("Pagination:panic", cs{size, uint64(n), p}, "size=%d len=%d page=%d: panic %s", size, n, p, msg)
+					continue
+				}
 				if err != nil {
 					r.Failf("Pagination:unexpected-error", cs{size, uint64(n), p}, "size=%d len=%d page=%d: %v", size, n, p, err)
 					continue
